@@ -212,7 +212,7 @@ PROPS["C13"] = dict(
           "score must be the negation (Raw(x)<->Raw(-x), WhiteMateIn(n)<->BlackMateIn(n), Min<->Max); positions whose "
           "side to move has a promotion move at the root are skipped as the property states; best moves are not "
           "compared; distinct_nontrivial = distinct positions with at least one common depth"),
-    floor=dict(any={"evaluations": 2000, "depth-comparisons": 6000, "score-kind:raw": 2000, "score-kind:mate": 50,
+    floor=dict(any={"evaluations": 2000, "depth-comparisons": 6000, "score-kind:raw": 2000, "score-kind:mate": 50, "engine-reuse-pairs": 500,
                     "common-depths:3": 50}),
     watchdog=dict(quick=1200, thorough=10800),
     assumptions=[MODEL_ASSUMPTION, CHK_ASSUMPTION, HOOK_ASSUMPTION],
